@@ -107,6 +107,29 @@ def cc(src, out, extra=(), timeout=300, cflags=None, compiler="gcc"):
     return rc == 0, txt, " ".join(cmd)
 
 
+def corpus_programs(res, pid, keys=None):
+    """corpus/<pid>/*.c: stored witness programs of repaired defects / known findings (public API only), rebuilt against the
+    current tree and run; a non-zero exit or a crash means the defect reproduces: violation with key keys[name] (default
+    impl:corpus:<name>), which known_findings.txt may list.  Returns the number of programs run."""
+    cdir = os.path.join(VERIF, "corpus", pid)
+    n = 0
+    for name in sorted(os.listdir(cdir)) if os.path.isdir(cdir) else []:
+        if not name.endswith(".c"):
+            continue
+        exe = os.path.join(BUILD, "corpus_%s_%s" % (pid, name[:-2]))
+        rc, txt = run(["gcc"] + CFLAGS_REL + INC + [os.path.join(cdir, name), os.path.join(REPO, "src", "static.c"), "-o", exe, "-lpthread"], timeout=300)
+        if rc != 0:
+            res.violation("corpus-build:" + name, "corpus program %s no longer builds: %s" % (name, txt[-600:]))
+            continue
+        rc, out, err = run_split([exe], timeout=120, env=clean_env())
+        n += 1
+        if rc != 0:
+            key = (keys or {}).get(name, "impl:corpus:" + name[:-2])
+            res.violation(key, "corpus/%s/%s reproduces (exit %d): %s" % (pid, name, rc, out.strip()[-300:]), witness="corpus/%s/%s" % (pid, name))
+    res.cov.setdefault("input_distribution", {})["corpus_programs"] = n
+    return n
+
+
 def gen(with_override=False):
     """regenerate coq/Gen/*.v from REPO; returns (ok, message, changed_files)"""
     with Lock():
@@ -448,7 +471,7 @@ class Result:
 
 
 GLOBAL_TRUSTED = [
-    "Coq 8.16.1 kernel + vm_compute (no native_compute); coqchk re-check in thorough tier",
+    "Coq 8.16.1 kernel + vm_compute (no native_compute); independent re-check with coqchk -o: tools/coqchk (separate command, output in evidence/coqchk.txt)",
     "Coq standard library (NArith, ZArith, List, Lia/nia, Zify); no axioms declared by this development",
     "translator harness/gen_dump.c + C compiler (coq/Gen/*.v regenerated from /repo on every run)",
     "extraction: ExtrOcamlBasic only (bool, option, list, prod, unit, sumbool mapped to OCaml's), no Extract Constant; OCaml 4.13.1; hand-written ocaml/*.ml replay drivers",
@@ -507,6 +530,19 @@ def proof_stage(res, pid, extra_targets=(), with_override=False, files=None):
     res.cov["print_assumptions"] = dict(all_assum)
     res.cov["trusted_base"].append("Print Assumptions: " + ("all %d theorems closed under the global context" % len(all_assum)
                                    if not axioms else "; ".join(axioms)))
+    if axioms:
+        # the development uses no axiom at all (DESIGN.md section 5): an assumption that is not closed is a proof-stage failure
+        names = [n for n, b in all_assum.items() if not b.startswith("Closed under")]
+        res.violation("proof:assumptions", "theorems depend on axioms that the trusted base does not name: %s: %s" % (", ".join(names[:8]), "; ".join(axioms)[:800]), witness=None)
+        return False
+    missing = []
+    for f in files:
+        txt = strip_coq_comments(open(os.path.join(COQ, "Properties", f + ".v")).read())
+        for n in re.findall(r'^\s*Theorem\s+([A-Za-z0-9_\']+)', txt, re.M):
+            if n not in all_assum: missing.append(n)
+    if missing:
+        res.violation("gate", "theorems without a Print Assumptions line in their property file: " + ", ".join(missing[:10]), witness=None)
+        return False
     bad = grep_gate()
     if bad:
         res.violation("gate", "forbidden constructs in the development: " + "; ".join(bad[:10]), witness=None)
